@@ -6,6 +6,7 @@ package props
 import (
 	"bytes"
 	"fmt"
+	"io"
 	"strings"
 	"testing"
 	"unicode/utf8"
@@ -24,16 +25,16 @@ var c18CP1252 = [32]rune{
 }
 
 type c18Case struct {
-	Shape    gen.Shape    `json:"shape"`
-	Recs     []gen.Rec    `json:"recs"`     // values use only code points < 256: one byte each in the single-byte input
-	Encoding string       `json:"encoding"` // iso-8859-1 | windows-1252 | utf-8
-	BOM      bool         `json:"bom"`      // utf-8 only
+	Shape    gen.Shape `json:"shape"`
+	Recs     []gen.Rec `json:"recs"`     // values use only code points < 256: one byte each in the single-byte input
+	Encoding string    `json:"encoding"` // iso-8859-1 | windows-1252 | utf-8
+	BOM      bool      `json:"bom"`      // utf-8 only
 	// RawBOMBytes (single-byte encodings): the input starts with the bytes EF BB BF, which in those code pages are
 	// three ordinary characters, not a byte-order mark
 	RawBOMBytes bool `json:"raw_bom_bytes,omitempty"`
 	// RawLead (single-byte encodings): 1.. the input starts with the bytes of another encoding's byte-order mark
 	// (c18Leads), which are ordinary characters in the declared code page (the declared encoding is authoritative)
-	RawLead int `json:"raw_lead,omitempty"`
+	RawLead  int          `json:"raw_lead,omitempty"`
 	Schedule run.Schedule `json:"schedule"`
 }
 
@@ -186,6 +187,20 @@ func c18Decode(b []byte, enc string, undefinedAsC1 bool) []byte {
 	return out
 }
 
+// c18GateReader runs first() once, inside its first Read, before any byte is delivered.
+type c18GateReader struct {
+	inner io.Reader
+	first func()
+}
+
+func (g *c18GateReader) Read(p []byte) (int, error) {
+	if f := g.first; f != nil {
+		g.first = nil
+		f()
+	}
+	return g.inner.Read(p)
+}
+
 func checkC18(c c18Case) obs.Result {
 	classes := []string{"format=" + c.Shape.Format, "enc=" + c.Encoding}
 	text := c.Shape.Render(c.Recs) // UTF-8, all runes < 256
@@ -242,6 +257,23 @@ func checkC18(c c18Case) obs.Result {
 				}
 			}
 			classes = append(classes, "bom")
+			// the same with another transform opened (and read to its end) while this one is being opened: the source's
+			// first Read - NewTransform is waiting in it for the first bytes - runs a second transform of the same Schema
+			// over the same bytes before it delivers anything (two uploads whose openings overlap in time)
+			gate := &c18GateReader{inner: bytes.NewReader(withBOM)}
+			gate.first = func() {
+				_, _ = run.Transcript(schUTF, bytes.NewReader(withBOM), run.Opts{InputLen: len(withBOM)})
+			}
+			ov, err := run.Transcript(schUTF, gate, run.Opts{InputLen: len(withBOM)})
+			if err != nil {
+				return obs.Violationf("run with BOM, another transform opened during NewTransform: %v", err)
+			}
+			if d := run.Diff(ref, ov, key); d != "" {
+				return obs.Violationf("a leading UTF-8 BOM changes the results when another transform is opened while this one waits for its first bytes (A without BOM, B with BOM and an overlapping opening):\n%s\ninput %q", d, withBOM)
+			}
+			if gate.first == nil {
+				classes = append(classes, "bom+overlapping-open")
+			}
 		}
 		hi := false
 		for _, b := range text {
